@@ -38,6 +38,14 @@ CLAIMS['C03'] = ('proof', 'Lean 4 theorems (abstract gather/scatter steps, const
     'The executable model (constructor, communicator choice, _compatibleLayout, getAxes, bufferSize, equal/scatter/gather steps, redirects) is compared exactly with the real '
     'LayoutSwapper on random groupings and walks: constructor outcome, buffer sizes, route map, every destination block after every step, source intactness.',
     NOTE_COMMON, 'DESIGN.md 4/C03')
+CLAIMS['C06'] = ('proof', 'Lean 4 theorems about an abstract machine of blocking matched collectives (progress, persistence, termination for every schedule) + per-configuration validation of its hypothesis on the real code under a schedulable simulated MPI + exact model traces',
+    'progress / no_deadlock / enabled_disjoint / enabled_persist / fire_remaining / schedule_terminates: if the per-rank programs are projections of one global event list, '
+    'no arrival order can block and every schedule completes all events. The hypothesis is established per configuration on the real code: one complete run yields the event '
+    'list, every rank trace must be its projection and must be identical under other scheduler policies (and all choice sequences of depth 5 on <=3 ranks); operation/root/'
+    'count/datatype agreement is checked at every rendezvous. Model/Traces.lean predicts each rank\'s (communicator, operation, counts) for handler/swapper construction and '
+    'all transposes: compared exactly. Route choice: real _makeConnectionMap in interpreters with different PYTHONHASHSEED, compared with each other, with the model under '
+    'several tie-break orders, and with a BFS shortest-path oracle. Also run: grid reductions/figure blocks with a plot-only rank, and the real driver for one step.',
+    NOTE_COMMON + ' Real MPI semantics (blocking collectives matched per communicator in program order) are assumed; route determinism is established by correspondence + oracle, not by a theorem.', 'DESIGN.md 4/C06')
 PENDING = {
 }
 ALL = ['C%02d' % i for i in range(1, 21)]
